@@ -5,13 +5,13 @@ import os
 import re
 
 ROOT = "/verif/seeded"
-print("| change | file(s) | what it breaks (one line) | detected by | signature | s |")
-print("|---|---|---|---|---|---|")
+print("| change | file(s) | what it does (first words of the author's summary) | detected by | signature | seed | s |")
+print("|---|---|---|---|---|---|---|")
 for name in sorted(x for x in os.listdir(ROOT) if re.fullmatch(r"C\d\d-\d+", x)):
     m = json.load(open(f"{ROOT}/{name}/meta.json"))
     d = m.get("detected_by") or {}
     files = ", ".join(os.path.basename(f) for f in m.get("files_changed", []))
     s = re.sub(r"\s+", " ", m.get("summary", "")).replace("|", "/")
-    s = s[:150] + ("..." if len(s) > 150 else "")
+    s = s[:120] + ("..." if len(s) > 120 else "")
     chk = f"{d.get('check')}/{d.get('sub_check')}" if d.get("check") else "**missed**"
-    print(f"| {name} | {files} | {s} | {chk} | {d.get('signature') or ''} | {d.get('wall_s', '')} |")
+    print(f"| {name} | {files} | {s} | {chk} | {d.get('signature') or ''} | {d.get('seed', '')} | {d.get('wall_s', '')} |")
